@@ -412,4 +412,17 @@ class RepeatedComponentField(Field):
         return self.Proxy(value, self.field)
 
     def _set_value(self, value):
+        if self._is_single(value):
+            # a single (non repeated) occurrence of the component was given
+            value = [value]
         return [self.field._set_value(item) for item in value]
+
+    def _is_single(self, value):
+        """Checks if the value is a single occurrence of the component
+        """
+        if isinstance(value, (basestring, dict, self.field.mapping)):
+            return True
+        if isinstance(value, (list, tuple)) and value:
+            return all(item is None or isinstance(item, basestring)
+                       for item in value)
+        return False
